@@ -138,9 +138,21 @@ CHECKS.update({
         technique="TLA+ document algebra with TLC as the only renderer/classifier + differential observations against encoding/json judged by TLC", ref="5 (C16)"),
 })
 
+CHECKS.update({
+    "C14": dict(engine="Concurrent",
+        text="Concurrent.tla states the contract (N independent machines; no location outside a run's own state with a plain write and another process' access) over the "
+             "table of shared locations that the current sources write, extracted statically (package-level variables, variables captured by returned parser closures); "
+             "the real code runs free under the Go race detector (8 goroutines x success/failure inputs on shared JSON / arithmetic / left-recursive graphs plus "
+             "concurrent construction) and gated (deterministic random schedules at probe granularity); C14Trace requires every goroutine's observations to equal "
+             "its solo observations and has no action for a race report.",
+        note="memory-level race detection delegated to the Go race detector (-race build of the harness); gated schedules random, not exhaustive; static suspects are informational",
+        technique="TLA+ interleaving contract over statically extracted shared locations + race-detector runs and deterministic gated schedules judged by a TLA+ trace spec (solo-equality)", ref="5 (C14)"),
+})
+
 NOT_YET = {}
 
 ENGINES = [
+    dict(name="Concurrent", path="spec/Concurrent.tla", serves_properties=["C14"], kind_free_text="interleaving contract over shared locations (tools/sharedvars); C14Trace"),
     dict(name="Literals", path="spec/Literals.tla", serves_properties=["C08"], kind_free_text="byte-level lexical specification; LiteralsMC (export), LiteralsTrace"),
     dict(name="JsonDoc", path="spec/JsonDoc.tla", serves_properties=["C16"], kind_free_text="JSON document algebra; JsonDocMC / JsonDocRender (rendering), JsonDocTrace"),
     dict(name="Arith", path="spec/Arith.tla", serves_properties=["C05"], kind_free_text="byte-level reference evaluator; ArithMC (export), ArithTrace"),
